@@ -573,6 +573,15 @@ func (a *Aff) lin(v ssa.Value) *Lin {
 		if x.Op == token.SUB && isInteger(x.Type()) {
 			return a.Lin(x.X).Scale(-1)
 		}
+	case *ssa.Extract:
+		// n of `n, err := r.Read(p)`: the io.Reader contract, 0 <= n <= len(p)
+		if p := readCallBuffer(x); p != nil {
+			s := a.sym(v)
+			if _, done := a.defFacts[s]; !done {
+				a.defFacts[s] = []Con{GE(LinSym(s), LinConst(0)), LE(LinSym(s), a.LenOf(p))}
+			}
+			return LinSym(s)
+		}
 	}
 	return LinSym(a.sym(v))
 }
@@ -1682,4 +1691,46 @@ func (a *Aff) ReturnInfeasibleAt(call *ssa.Call, ret *ssa.Return) bool {
 	}
 	all = append(all, a.intrinsic(ls...)...)
 	return infeasible(all)
+}
+
+// readCallBuffer: x is the count result of a call of a method `Read([]byte) (int, error)` (io.Reader,
+// *os.File, *bufio.Reader, net.Conn); returns the buffer argument.
+func readCallBuffer(x *ssa.Extract) ssa.Value {
+	if x.Index != 0 {
+		return nil
+	}
+	call, ok := x.Tuple.(*ssa.Call)
+	if !ok {
+		return nil
+	}
+	cc := call.Common()
+	var sig *types.Signature
+	var buf ssa.Value
+	if cc.IsInvoke() {
+		if cc.Method.Name() != "Read" || len(cc.Args) != 1 {
+			return nil
+		}
+		sig, _ = cc.Method.Type().(*types.Signature)
+		buf = cc.Args[0]
+	} else {
+		f := cc.StaticCallee()
+		if f == nil || f.Name() != "Read" || f.Signature.Recv() == nil || len(cc.Args) != 2 {
+			return nil
+		}
+		if f.Pkg == nil || (f.Pkg.Pkg.Path() != "os" && f.Pkg.Pkg.Path() != "bufio" && f.Pkg.Pkg.Path() != "net" && f.Pkg.Pkg.Path() != "io") {
+			return nil
+		}
+		sig = f.Signature
+		buf = cc.Args[1]
+	}
+	if sig == nil || sig.Params().Len() != 1 || sig.Results().Len() != 2 {
+		return nil
+	}
+	if sl, ok := sig.Params().At(0).Type().Underlying().(*types.Slice); !ok || !types.Identical(sl.Elem(), types.Typ[types.Byte]) {
+		return nil
+	}
+	if b, ok := sig.Results().At(0).Type().Underlying().(*types.Basic); !ok || b.Kind() != types.Int {
+		return nil
+	}
+	return buf
 }
